@@ -7,7 +7,7 @@
    SQLite's protocol, one of PENDING/RESERVED/SHARED (rollback mode) or WRITE/CKPT/RECOVER/READ0-4
    (WAL mode); beginning to read or write means acquiring SHARED resp. a READ lock. *)
 From Coq Require Import NArith List Bool.
-Require Import LF.Base.RWBase LF.Gen.RWMutexGen LF.Gen.ConstsGen LF.Model.RWMutex LF.Proofs.RWMutexProofs LF.Model.Locks LF.Proofs.LocksProofs.
+Require Import LF.Gen.LockScriptsGen LF.Base.RWBase LF.Gen.RWMutexGen LF.Gen.ConstsGen LF.Model.RWMutex LF.Proofs.RWMutexProofs LF.Model.Locks LF.Proofs.LocksProofs.
 Import ListNotations.
 Local Open Scope nat_scope.
 
@@ -57,6 +57,16 @@ Theorem C11_parse_shm_range : forall a b l,
 Proof. exact parse_shm_range_correct. Qed.
 Theorem C11_halt_never_parsed : forall l, lock_byte l <> c_LockTypeHalt.
 Proof. exact halt_never_parsed. Qed.
+
+(* the modelled script is the one generated from db.go *)
+Theorem C11_write_script_is_generated : forall wal,
+  write_script wal = acts_of (gen_write_common ++ (if wal then gen_write_wal else gen_write_rollback)).
+Proof. exact write_script_is_generated. Qed.
+
+(* flushing a database-file handle releases PENDING / RESERVED / SHARED of that owner and nothing else *)
+Theorem C11_unlock_database_keeps_shm : forall t g t', TInv t -> unlock_all t g db_locks = Some t' ->
+  (forall l, In l shm_locks -> gst (t' l) g = gst (t l) g) /\ (forall l h, h <> g -> gst (t' l) h = gst (t l) h).
+Proof. exact unlock_database_keeps_shm. Qed.
 
 (* the invariant holds in every table reachable through the API *)
 Theorem C11_reachable_inv : forall t o c t', TInv t -> lstep t o = Some (c, t') -> TInv t'.
